@@ -202,7 +202,7 @@ func runC17(w *mon.W) {
 	}
 	w.Extra("exhaustive_parts", []string{fmt.Sprintf("De Bruijn sequence of every order 1..%d: all windows", maxOrder)})
 
-	nLists := w.Pick(1500, 50000)
+	nLists := w.Pick(15000, 200000)
 	for i := 0; i < nLists; i++ {
 		id := fmt.Sprintf("bc-%d", i)
 		idx++
